@@ -24,7 +24,8 @@ THEOREMS = [
     'C05.jsonVal_only', 'C05.valueString_only', 'C05.cmpVal_only',
     # the call wrapper
     'C05.wrapper_contains', 'C05.wrapper_swallows_every_host_class', 'C05.failure_is_null_or_documented',
-    'C05.failure_logged_once_in_debug', 'C05.failure_log_length',
+    'C05.failure_logged_once_in_debug', 'C05.failure_log_length', 'C05.wrapper_result_config_independent',
+    'C05.wrapper_silent_without_logFn_or_debug',
     # machine level
     'C05.no_host_escape_machine', 'C05.no_host_escape_expr', 'C05.libOut_of_wrapCall', 'C05.log_line_iff_machine_logFailure',
     'C05.execution_continues', 'C05.binary_continues', 'C05.args_continue', 'C05.statement_continues',
@@ -45,6 +46,10 @@ ASSUMPTIONS = [
     '(arrayNewSize(1e308), mathRound(x, <400-digit int>) would run for ever: such size arguments are not generated), '
     'KeyboardInterrupt/SystemExit, exceptions raised by the host-supplied logFn/urlFn themselves',
     'exec correspondence (driver op exec) is run on the exactly representable fragment only (small dyadic numbers, integral exponents)',
+    'host options (doc/options.md): every member is optional and the check runs every case with members ABSENT (debug, logFn, fetchFn, '
+    'globals, maxStatements, the whole options argument); a member that is present has its documented type - debug a bool, logFn / '
+    'fetchFn callables. An explicit "logFn": None is outside the domain (the include statement and the library tolerate it, the '
+    'call wrapper of runtime.py:246 would call it in debug mode: TypeError)',
 ]
 TRUSTED = ['harness/props/C05.py: operand/argument pools, the reference reading of the operator block (py_block) and of the wrapper '
            '(callee outcome measured by calling the library function directly)']
@@ -64,7 +69,12 @@ LEVEL_TEXT = ('Theorems (Lean 4, for ALL operands, heaps incl. cyclic ones, recu
               'vs CPython primitives vs evaluate_expression on an adversarial operand pool x all operators; every library function '
               'x wrong-typed/missing/surplus argument lists against the wrapper model; generated programs with adversarial operands '
               'vs the jump machine in both debug modes; oracle on the implementation: nothing but BareScriptRuntimeError / '
-              'BareScriptParserError ever escapes execute_script / evaluate_expression.')
+              'BareScriptParserError ever escapes execute_script / evaluate_expression - under EVERY host configuration: each case of '
+              'every stream is run with debug True/False and a logFn, and again under the other combinations of debug '
+              'True/False/absent x logFn supplied/absent (scripts: x fetchFn file table/absent/raising, globals absent; expressions: '
+              'options None / without globals; corpus: also without maxStatements and with no options at all); outcome, globals, '
+              'statement count and what reaches a supplied logFn must be those of the reference configuration with the same debug '
+              'mode (one failure line per swallowed failure iff debug and logFn - the wrapper model is run with hasLogFn false too).')
 LEVEL_NOTE = ('Trusted: Lean kernel; correspondence harness (pools, reference reading of the block and of the wrapper). Modelled not '
               'verified: CPython int/float arithmetic, libm pow, datetime/timedelta, json encoder failure modes, str(int) digit '
               'limit (all parameters or explicit cases of BareModel/HostPy.lean, sampled by stream binop-host). Library function '
@@ -95,17 +105,89 @@ def guarded(mods, fn):
         return ('escape', type(exc).__name__, str(exc)[:160])
 
 
-def run_script(mods, text, globals_=None, debug=True, max_statements=20000, files=None):
+# ---------------------------------------------------------------------------------------------------------------------
+# host configurations: the property quantifies over the EMBEDDING too.  Every member of ExecuteScriptOptions is optional
+# (doc/options.md), so a run is checked under every combination of  debug {True, False, absent} x logFn {supplied, absent}
+# (x fetchFn {a file table, absent, a function that raises} for scripts), and expressions also under options None / {} /
+# no 'globals'.  JSON-able, so that a witness can be replayed.  The two REFERENCE configurations (logFn supplied, debug
+# True / False) are run for every case; the others rotate over the cases (quick) or are all run (thorough).
+# ---------------------------------------------------------------------------------------------------------------------
+
+ABSENT = '<absent>'
+REF_ON = {'debug': True, 'logFn': True}
+REF_OFF = {'debug': False, 'logFn': True}
+EXTRA_CONFIGS = [{'debug': True, 'logFn': False}, {'debug': ABSENT, 'logFn': True}, {'debug': False, 'logFn': False},
+                 {'debug': ABSENT, 'logFn': False}]
+FETCH_MODES = ['files', 'absent', 'raises']
+# the corpus (fixed scripts, known to terminate) is also run without 'maxStatements', without 'globals' and with options None
+CORPUS_CONFIGS = EXTRA_CONFIGS + [{'debug': True, 'logFn': False, 'noMax': True, 'noGlobals': True}, {'debug': ABSENT, 'logFn': True, 'noMax': True},
+                                  {'debug': True, 'logFn': True, 'noGlobals': True}, {'none': True}]
+
+
+def cfg_debug(cfg):
+    """is debug mode on under this configuration (options.get('debug'))"""
+    return cfg['debug'] is True
+
+
+def cfg_logs(cfg):
+    """does a failing call have to be reported under this configuration"""
+    return cfg_debug(cfg) and cfg['logFn']
+
+
+def cfg_tag(cfg):
+    if cfg.get('none'):
+        return 'options=None'
+    return f"debug={cfg['debug']}/logFn={'yes' if cfg['logFn'] else 'no'}" + (f"/fetch={cfg['fetchFn']}" if 'fetchFn' in cfg else '') + \
+        ('/noglobals' if cfg.get('noGlobals') else '') + ('/nomax' if cfg.get('noMax') else '')
+
+
+def extra_configs(ctx, ix, rng=None, fetch=False):
+    """the non-reference configurations to run for case number ix (scripts: also fetchFn mode and 'globals' absent)"""
+    cfgs = [dict(c) for c in (EXTRA_CONFIGS if not ctx.quick else [EXTRA_CONFIGS[ix % len(EXTRA_CONFIGS)]])]
+    if fetch:
+        for c in cfgs:
+            c['fetchFn'] = rng.choice(FETCH_MODES)
+            if rng.random() < 0.25:
+                c['noGlobals'] = True
+    return cfgs
+
+
+def make_options(cfg, log, globals_=None, files=None, fetch=None, **more):
+    """the options dict of one host configuration (log: the list that collects what reaches logFn, if one is supplied)"""
+    options = dict(more)
+    if globals_ is not None:
+        options['globals'] = globals_
+    if cfg['debug'] != ABSENT:
+        options['debug'] = cfg['debug']
+    if cfg['logFn']:
+        options['logFn'] = log.append
+    mode = cfg.get('fetchFn', 'files')
+    if mode == 'raises':
+        def raising_fetch(req):
+            raise OSError('fetch failed: ' + str(req)[:40])
+        options['fetchFn'] = raising_fetch
+    elif mode == 'files':
+        if fetch is not None:
+            options['fetchFn'] = fetch
+        elif files is not None:
+            options['fetchFn'] = lambda req: files.get(req['url'])
+    return options
+
+
+def run_script(mods, text, globals_=None, debug=True, max_statements=20000, files=None, cfg=None):
     """-> (outcome, log, globals dict)"""
     log = []
     g = dict(globals_ or {})
-    options = {'globals': g, 'maxStatements': max_statements, 'logFn': log.append, 'debug': debug}
-    if files is not None:
-        options['fetchFn'] = lambda req: files.get(req['url'])
+    cfg = cfg or {'debug': debug, 'logFn': True}
+    if cfg.get('none'):                                 # execute_script(script): no options at all
+        return guarded(mods, lambda: mods['runtime'].execute_script(mods['parser'].parse_script(text))), log, None
+    more = {} if cfg.get('noMax') else {'maxStatements': max_statements}
+    options = make_options(cfg, log, None if cfg.get('noGlobals') else g, files=files, **more)
 
     def go():
         return mods['runtime'].execute_script(mods['parser'].parse_script(text), options)
-    return guarded(mods, go), log, g
+    out = guarded(mods, go)
+    return out, log, (options.get('globals') or {}) if cfg.get('noGlobals') else g
 
 
 # ---------------------------------------------------------------------------------------------------------------------
@@ -547,11 +629,16 @@ def fetch_fn(req):
     return None
 
 
-def callee_outcome(mods, fn, specs, debug):
-    """call the library function DIRECTLY (outside the wrapper) -> (outcome tuple, its own log lines)"""
+def call_cfg(debug, cfg=None):
+    return cfg if cfg is not None else {'debug': bool(debug), 'logFn': True}
+
+
+def callee_outcome(mods, fn, specs, debug, cfg=None):
+    """call the library function DIRECTLY (outside the wrapper), under the same host configuration
+    -> (outcome tuple, its own log lines)"""
     log = []
-    options = {'globals': dict(mods['library'].SCRIPT_FUNCTIONS), 'logFn': log.append, 'debug': debug, 'statementCount': 0,
-               'maxStatements': 20000, 'fetchFn': fetch_fn}
+    options = make_options(call_cfg(debug, cfg), log, dict(mods['library'].SCRIPT_FUNCTIONS), fetch=fetch_fn, statementCount=0,
+                           maxStatements=20000)
     args = [build(s, mods) for s in specs]
     try:
         out = ('ret', fn(args, options))
@@ -568,11 +655,11 @@ def callee_outcome(mods, fn, specs, debug):
     return out, log
 
 
-def wrapped_call(mods, name, specs, debug, via_alias=None):
+def wrapped_call(mods, name, specs, debug, via_alias=None, cfg=None):
     """the same call through the evaluator -> (guarded outcome, log)"""
     log = []
     g = {f'g{i}': build(s, mods) for i, s in enumerate(specs)}
-    options = {'globals': g, 'logFn': log.append, 'debug': debug, 'maxStatements': 20000, 'fetchFn': fetch_fn}
+    options = make_options(call_cfg(debug, cfg), log, g, fetch=fetch_fn, maxStatements=20000)
     if via_alias is None:
         text = call_program(name, len(specs))
         out = guarded(mods, lambda: mods['runtime'].execute_script(mods['parser'].parse_script(text), options))
@@ -594,7 +681,9 @@ def stream_wrapper(ctx, mods, per_fn):
     lib = mods['library'].SCRIPT_FUNCTIONS
     aliases = {v: k for k, v in mods['library'].EXPRESSION_FUNCTION_MAP.items()}
     st = ctx.stream('wrapper', 'every name of library.SCRIPT_FUNCTIONS x argument lists (missing, each representative value of every '
-                               'type incl. huge ints, non-finite floats, cyclic containers, raising callbacks, surplus), debug on/off, '
+                               'type incl. huge ints, non-finite floats, cyclic containers, raising callbacks, surplus) x host '
+                               'configuration (debug True/False with a logFn for every case + the other combinations of debug '
+                               'True/False/absent x logFn supplied/absent: one per case in rotation (quick), all (thorough)), '
                                'through execute_script and (aliases) evaluate_expression with builtins: callee outcome measured by a '
                                'direct call -> Lean HostPy.wrapCall vs what the evaluator did; non-trivial = the callee raised')
     rng = ctx.rng('wrapper')
@@ -611,9 +700,12 @@ def stream_wrapper(ctx, mods, per_fn):
                 cases.append((name, specs))
     reqs = []
     measured = []
-    for name, specs in cases:
-        for debug in (True, False):
-            out, own_log = callee_outcome(mods, lib[name], specs, debug)
+    plan = []
+    off = rng.randrange(len(EXTRA_CONFIGS))               # which configuration meets which case depends on VERIF_SEED
+    for cix, (name, specs) in enumerate(cases):
+        for kix, cfg in enumerate([REF_ON, REF_OFF] + extra_configs(ctx, cix + off)):
+            debug, has_log = cfg_debug(cfg), cfg['logFn']
+            out, own_log = callee_outcome(mods, lib[name], specs, debug, cfg)
             measured.append((out, own_log))
             o = {'k': out[0]}
             if out[0] == 'ret':
@@ -624,54 +716,57 @@ def stream_wrapper(ctx, mods, per_fn):
                 o['msg'], o['v'] = out[1], short_tag(out[2], lib)
             else:
                 o['cls'], o['msg'] = out[1], out[2]
-            alias = aliases.get(name) if (len(reqs) + 1) % 3 == 0 else None
-            reqs.append({'op': 'wrapCall', 'out': o, 'debug': debug, 'hasLogFn': True, 'name': alias or name, 'log': ['before'] + own_log})
+            alias = aliases.get(name) if (cix + kix) % 3 == 0 else None      # one run in three through evaluate_expression
+            plan.append((name, specs, cfg, alias))
+            reqs.append({'op': 'wrapCall', 'out': o, 'debug': debug, 'hasLogFn': has_log, 'name': alias or name,
+                         'log': (['before'] if has_log else []) + own_log})
     resps = ctx.driver.batch(reqs)
-    ix = 0
-    for name, specs in cases:
-        for debug in (True, False):
-            out, own_log = measured[ix]
-            resp = resps[ix]
-            ix += 1
-            case = {'kind': 'call', 'name': name, 'args': specs, 'debug': debug}
-            alias = aliases.get(name) if (ix % 3 == 0) else None
-            assert (alias or name) == reqs[ix - 1]['name']
-            got, log = wrapped_call(mods, name, specs, debug, via_alias=alias)
-            failing = out[0] in ('args', 'host')
-            st.case([name, specs, debug], nontrivial=out[0] != 'ret', tags=[out[0], 'debug' if debug else 'nodebug'] +
-                    ([out[1]] if out[0] == 'host' else []))
-            # --- oracle 1: only documented exceptions escape
-            if got[0] == 'escape':
-                ctx.witness('call-escape', case, 'value or BareScriptRuntimeError/BareScriptParserError', list(got))
-                ctx.disagree('wrapper', case, list(got), resp, 'implementation raised')
-                continue
-            # --- oracle 2 (independent of the model): null / documented failure value, one debug line, execution continues
-            nfail = [ln for ln in log if (m := FAIL_RE.match(ln)) and m.group(1) == (alias or name)]
-            if failing:
-                want = out[2] if out[0] == 'args' else None
-                if got[0] != 'ok' or deep(got[1], lib) != deep(want, lib):
-                    ctx.witness('failure-value', case, deep(want, lib), list(got[:1]) + [deep(got[1], lib) if got[0] == 'ok' else got[1]])
-                if len(nfail) != (1 if debug else 0):
-                    ctx.witness('failure-log-once', case, 1 if debug else 0, log[-5:])
-                if alias is None and (not log or log[-1] != 'after'):
-                    ctx.witness('execution-continues', case, "log ends with 'after'", log[-5:])
-            elif out[0] == 'ret' and nfail and name not in ('systemLog', 'systemLogDebug'):
-                ctx.witness('spurious-failure-log', case, 0, nfail)
-            # --- correspondence with the wrapper model
-            if alias is not None:
-                impl_log = ['before'] + log
-            else:
-                impl_log = log[:-1] if (got[0] == 'ok' and log and log[-1] == 'after') else log
-            if got[0] == 'ok':
-                res = {'value': short_tag(got[1], lib)}
-            elif got[0] == 'rt':
-                res = {'raiseRuntime': got[1]}
-            else:
-                res = {'raiseParser': got[1]}
-            model_res = resp.get('res')
-            if name in NONDET and out[0] == 'ret':
-                res = model_res = {'value': 'nondeterministic'}
-            ctx.compare('wrapper', case, no_addr({'res': res, 'log': impl_log}), no_addr({'res': model_res, 'log': resp.get('log')}))
+    for ix, (name, specs, cfg, alias) in enumerate(plan):
+        out, own_log = measured[ix]
+        resp = resps[ix]
+        debug, has_log = cfg_debug(cfg), cfg['logFn']
+        case = {'kind': 'call', 'name': name, 'args': specs, 'debug': debug}
+        if cfg not in (REF_ON, REF_OFF):
+            case['config'] = cfg
+        if alias is not None:
+            case['alias'] = alias
+        got, log = wrapped_call(mods, name, specs, debug, via_alias=alias, cfg=cfg)
+        failing = out[0] in ('args', 'host')
+        st.case([name, specs, cfg_tag(cfg)], nontrivial=out[0] != 'ret', tags=[out[0], 'debug' if debug else 'nodebug', cfg_tag(cfg)] +
+                ([out[1]] if out[0] == 'host' else []))
+        # --- oracle 1: only documented exceptions escape
+        if got[0] == 'escape':
+            ctx.witness('call-escape', case, 'value or BareScriptRuntimeError/BareScriptParserError', list(got))
+            ctx.disagree('wrapper', case, list(got), resp, 'implementation raised')
+            continue
+        # --- oracle 2 (independent of the model): null / documented failure value, one debug line (iff debug mode and a
+        #     logFn), execution continues (the statements after the call ran: 'after' logged, rr returned)
+        nfail = [ln for ln in log if (m := FAIL_RE.match(ln)) and m.group(1) == (alias or name)]
+        if failing:
+            want = out[2] if out[0] == 'args' else None
+            if got[0] != 'ok' or deep(got[1], lib) != deep(want, lib):
+                ctx.witness('failure-value', case, deep(want, lib), list(got[:1]) + [deep(got[1], lib) if got[0] == 'ok' else got[1]])
+            if len(nfail) != (1 if cfg_logs(cfg) else 0):
+                ctx.witness('failure-log-once', case, 1 if cfg_logs(cfg) else 0, log[-5:])
+            if alias is None and has_log and (not log or log[-1] != 'after'):
+                ctx.witness('execution-continues', case, "log ends with 'after'", log[-5:])
+        elif out[0] == 'ret' and nfail and name not in ('systemLog', 'systemLogDebug'):
+            ctx.witness('spurious-failure-log', case, 0, nfail)
+        # --- correspondence with the wrapper model
+        if alias is not None:
+            impl_log = (['before'] if has_log else []) + log
+        else:
+            impl_log = log[:-1] if (got[0] == 'ok' and log and log[-1] == 'after') else log
+        if got[0] == 'ok':
+            res = {'value': short_tag(got[1], lib)}
+        elif got[0] == 'rt':
+            res = {'raiseRuntime': got[1]}
+        else:
+            res = {'raiseParser': got[1]}
+        model_res = resp.get('res')
+        if name in NONDET and out[0] == 'ret':
+            res = model_res = {'value': 'nondeterministic'}
+        ctx.compare('wrapper', case, no_addr({'res': res, 'log': impl_log}), no_addr({'res': model_res, 'log': resp.get('log')}))
 
 
 # ---------------------------------------------------------------------------------------------------------------------
@@ -795,14 +890,45 @@ def no_addr(x):
     return x
 
 
+def exec_config_failures(mods, model, g, cfg, ref):
+    """a progen program under host configuration cfg vs the canonical outcome `ref` of progen.run_impl (logFn supplied,
+    same debug mode): result / error, globals, statement count and (if a logFn is supplied) the log are the same"""
+    library = mods['library']
+    log = []
+    gg = copy.deepcopy(dict(g or {}))
+    options = make_options(cfg, log, gg, maxStatements=400)
+    out = guarded(mods, lambda: mods['runtime'].execute_script(model, options))
+    if out[0] == 'escape':
+        return [('script-escape', 'result or BareScriptRuntimeError/BareScriptParserError', list(out))]
+    if 'hostexc' in ref:
+        return []
+    got = {}
+    if out[0] == 'ok':
+        got['result'] = progen.value_to_wire(out[1], library.SCRIPT_FUNCTIONS)
+    else:
+        got['error'] = out[1] if out[0] == 'rt' else 'ParserError ' + out[1]
+    got['log'] = canon_log(log)
+    got['globals'] = sorted([[k, progen.value_to_wire(v, library.SCRIPT_FUNCTIONS)] for k, v in gg.items()
+                             if not (k in library.SCRIPT_FUNCTIONS and v is library.SCRIPT_FUNCTIONS[k])], key=lambda kv: kv[0])
+    got['count'] = options.get('statementCount')
+    got = progen.canon_neg_zero(got)
+    want = dict(ref) if cfg['logFn'] else dict(ref, log=[])
+    if got != want:
+        keys = [k for k in sorted(set(got) | set(want)) if got.get(k) != want.get(k)]
+        return [('config-changes-outcome', {k: want.get(k) for k in keys}, {k: got.get(k) for k in keys})]
+    return []
+
+
 def stream_exec(ctx, mods, n):
     parser = mods['parser']
     rng = ctx.rng('exec-adversarial')
     st = ctx.stream('exec-adversarial', 'progen programs (depth<=4) with adversarial expressions (p=0.3: zero divisors, 0 ** -n, non-callable '
                                         'and undefined callees, missing/wrong-typed/surplus arguments to the modelled library subset) x '
                                         'initial globals x debug on/off: execute_script vs the Lean jump machine (result, log with '
-                                        '<failure> lines, globals, statementCount); oracles: no host exception, debug only ADDS '
-                                        'failure lines; non-trivial = at least one swallowed failure and no runtime error')
+                                        '<failure> lines, globals, statementCount) + one other host configuration per program '
+                                        '(debug True/False/absent x logFn supplied/absent, all four in thorough) vs the reference run; '
+                                        'oracles: no host exception, debug only ADDS failure lines, the configuration changes nothing '
+                                        'but the log; non-trivial = at least one swallowed failure and no runtime error')
     cases = []
     for _ in range(n):
         gen = AdvGen(rng, p=0.3, max_depth=rng.choice([2, 3, 4]))
@@ -819,6 +945,7 @@ def stream_exec(ctx, mods, n):
         for debug in (True, False):
             reqs.append({'op': 'exec', 'script': script, 'globals': wg, 'max': 400, 'fuel': 6000, 'debug': debug})
     resps = ctx.driver.batch(reqs)
+    off = rng.randrange(len(EXTRA_CONFIGS))
     for ix, ((prog, g, stats), (text, model)) in enumerate(zip(cases, models)):
         outs = {}
         for j, debug in enumerate((True, False)):
@@ -831,6 +958,9 @@ def stream_exec(ctx, mods, n):
                 ctx.witness('script-escape', case, 'result or BareScriptRuntimeError/BareScriptParserError', impl['hostexc'])
             ctx.compare('exec-adversarial', case, impl, progen.canon_model_out(resps[2 * ix + j]))
         dbg, nod = outs[True][0], outs[False][0]
+        for cfg in extra_configs(ctx, ix + off):         # the other host configurations: same outcome / globals / count / log
+            for oracle, exp, act in exec_config_failures(mods, model, g, cfg, outs[cfg_debug(cfg)][0]):
+                ctx.witness(oracle, {'kind': 'script', 'text': text, 'globals': g, 'debug': cfg_debug(cfg), 'config': cfg}, exp, act)
         nfail = dbg['log'].count('<failure>')
         st.case([text, g], nontrivial=nfail > 0 and 'error' not in dbg, tags=sorted(k for k in stats if k.startswith('adv-')) +
                 ['failures>0' if nfail else 'failures=0', 'error' if 'error' in dbg else 'ok'])
@@ -842,13 +972,42 @@ def stream_exec(ctx, mods, n):
             ctx.witness('no-log-without-debug', {'kind': 'script', 'text': text, 'globals': g, 'debug': False}, 0, outs[False][1])
 
 
+def eval_cfg(mods, impl_e, g, cfg, builtins):
+    runtime, library = mods['runtime'], mods['library']
+    log = []
+    gg = copy.deepcopy(g)
+    for name, fn in library.SCRIPT_FUNCTIONS.items():
+        gg.setdefault(name, fn)
+    options = make_options(cfg, log, gg, statementCount=0, maxStatements=400)
+    out = guarded(mods, lambda: runtime.evaluate_expression(impl_e, options, None, builtins))
+    if out[0] == 'ok':
+        return out, {'result': progen.value_to_wire(out[1], library.SCRIPT_FUNCTIONS), 'log': log}
+    return out, {'error': list(out[1:]), 'log': log}
+
+
+def expr_config_failures(mods, impl_e, g, cfg, builtins):
+    """one expression under host configuration cfg vs the reference configuration with the same debug mode"""
+    out, got = eval_cfg(mods, impl_e, g, cfg, builtins)
+    if out[0] == 'escape':
+        return [('expression-escape', 'value or BareScriptRuntimeError', list(out))]
+    ref_out, ref = eval_cfg(mods, impl_e, g, {'debug': cfg_debug(cfg), 'logFn': True}, builtins)
+    if ref_out[0] == 'escape':
+        return []
+    if not cfg['logFn']:
+        ref = dict(ref, log=[])
+    if no_addr(got) != no_addr(ref):
+        return [('config-changes-result', ref, got)]
+    return []
+
+
 def stream_expr(ctx, mods, n):
     """evaluate_expression, both builtins modes, against the machine running `return <expr>`"""
     runtime, library = mods['runtime'], mods['library']
     rng = ctx.rng('expr-adversarial')
     st = ctx.stream('expr-adversarial', 'adversarial expressions (AdvGen, p=0.4, depth<=3) evaluated by evaluate_expression with builtins '
                                         'False and True (library injected in globals), locals None / {} vs the Lean machine on '
-                                        '`return <expr>`; non-trivial = evaluates to a non-null value or swallows a failure')
+                                        '`return <expr>`, + one other host configuration per expression (debug True/False/absent x '
+                                        'logFn supplied/absent) vs the reference run; non-trivial = evaluates to a non-null value or swallows a failure')
     cases = []
     reqs = []
     for _ in range(n):
@@ -862,6 +1021,7 @@ def stream_expr(ctx, mods, n):
         for debug in (True, False):
             reqs.append({'op': 'exec', 'script': script, 'globals': progen.wire_globals(g), 'max': 400, 'fuel': 6000, 'debug': debug})
     resps = ctx.driver.batch(reqs)
+    off = rng.randrange(len(EXTRA_CONFIGS))
     for ix, (e, g) in enumerate(cases):
         text = progen.expr_text(e)
         impl_e = progen.impl_expr(e)
@@ -887,6 +1047,11 @@ def stream_expr(ctx, mods, n):
                 else:
                     got = {'error': out[1], 'log': canon_log(log)}
                 ctx.compare('expr-adversarial', case, got, want)
+        for cfg in extra_configs(ctx, ix + off):         # the other host configurations: same value, same log if there is a logFn
+            builtins = bool(ix % 2)
+            for oracle, exp, act in expr_config_failures(mods, impl_e, g, cfg, builtins):
+                ctx.witness(oracle, {'kind': 'expr', 'text': text, 'globals': g, 'debug': cfg_debug(cfg), 'builtins': builtins,
+                                     'config': cfg}, exp, act)
         st.case([text, g], nontrivial=any_nontrivial, tags=['expr', 'model-error' if 'error' in resps[2 * ix] else 'model-value',
                                                             'swallowed' if '<failure>' in (resps[2 * ix].get('log') or []) else 'clean'])
 
@@ -972,6 +1137,10 @@ ADV_LINES = [
     'while nan:\n    r1 = 1\n    break\nendwhile', 'r1 = !hx', 'r1 = !hh', 'r1 = !nan', 'r1 = !inf', 'r1 = !cy', 'r1 = !deep', 'r1 = hx && 1', 'r1 = hx || 1', 'r1 = nan && 1',
     'r1 = nan || 1', 'r1 = cy && 1', 'r1 = if(hx, 1, 2)', 'r1 = if(nan, 1, 2)', 'r1 = if(hh, 1, 2)', 'jumpif (hx) skipB\nr1 = 9\nskipB:', 'jumpif (nan) skipC\nr1 = 9\nskipC:',
     'r1 = systemBoolean(hx)', 'r1 = arrayIndexOf(arrayNew(1, 2), five)', 'if 0 - hx:\n    r1 = 1\nendif',
+    # statements that read the OPTIONAL members of the options themselves (logFn / debug / fetchFn / urlFn / systemPrefix)
+    "include 'ok.bare'\nr1 = incv", "include 'lint.bare'\nr1 = incw", "function ffOk():\n    include 'lint.bare'\nendfunction\nr1 = ffOk()",
+    "include <lint.bare>", 'r1 = systemLog(five)', "rf = systemFetch('ok.bare')", "rf = systemFetch(arrayNew('ok.bare', 'nowhere'))",
+    "rf = systemFetch(objectNew('url', 'ok.bare', 'body', 'bb'))",      # rf: the one global that legitimately depends on the fetchFn
 ]
 RT_LINES = [      # these END the run with a documented exception
     'r1 = nosuchFunction(1)', 'r1 = sfRaise(1, 2)', 'r1 = arraySort(arrayNew(3, 1, 2), sfRaise)', 'r1 = arrayIndexOf(arrayNew(1, 2), sfRaise)',
@@ -979,7 +1148,8 @@ RT_LINES = [      # these END the run with a documented exception
     "include 'missing.bare'", "include 'broken.bare'", "function ffInc():\n    include 'broken.bare'\nendfunction\nr1 = ffInc()",
     'r2 = systemPartial(sfRaise, 1)\nr1 = r2()', "r1 = null()",
 ]
-FILES = {'broken.bare': 'a = (1 +\n', 'ok.bare': 'incv = 1 / 0\n'}
+FILES = {'broken.bare': 'a = (1 +\n', 'ok.bare': 'incv = 1 / 0\n',
+         'lint.bare': 'function lf(aa, bb):\n    1 + 1\n    return arrayGet(aa, 9)\nendfunction\nincw = lf(1)\n'}
 ALIAS_EXPRS = ["len(5)", "abs('x')", "date(1, 2, 3)", "date(9999, 12, 31) + ''", "fixed(1.5, 0 - 1)", "max()", "parseInt('12', 99)", "rept('a', 0 - 1)",
                "sqrt(0 - 4)", "ln(0)", "log(8, 1)", "round(1.5, 0.5)", "slice('abc', 5, 1)", "charCodeAt('abc', 9)", "fromCharCode(0 - 1)", "text(1 / 0)",
                "upper(null)", "year(1)", "indexOf('abc')", "replace('a', null, 'b')", "arrayNew(1)", "nosuch(1)", "pi(1)", "now(1, 2)", "len()"]
@@ -989,16 +1159,59 @@ def fail_lines(log):
     return [ln for ln in log if FAIL_RE.match(ln)]
 
 
+# the shapes of the `options` argument of evaluate_expression: the first one is the reference
+OPTION_SHAPES = [{'globals': True, 'debug': True, 'logFn': True}, {'globals': True, 'debug': False, 'logFn': True},
+                 {'none': True}, {'debug': ABSENT, 'logFn': False}, {'globals': True, 'debug': ABSENT, 'logFn': False},
+                 {'debug': True, 'logFn': False}, {'globals': True, 'debug': True, 'logFn': False}, {'debug': False, 'logFn': False},
+                 {'globals': True, 'debug': ABSENT, 'logFn': True}, {'debug': True, 'logFn': True}]
+ALIAS_NONDET = ('now(', 'today(')
+
+
+def shape_tag(shape):
+    if shape.get('none'):
+        return 'options=None'
+    return ('globals/' if shape.get('globals') else 'noglobals/') + cfg_tag(shape)
+
+
+def eval_shape(mods, expr, shape, builtins):
+    """evaluate_expression(expr, <options of this shape>) -> (guarded outcome, log)"""
+    log = []
+    options = None if shape.get('none') else make_options(shape, log, {} if shape.get('globals') else None)
+    return guarded(mods, lambda: mods['runtime'].evaluate_expression(expr, options, None, builtins)), log
+
+
+def alias_failures(out, log, shape, ref, lib, src):
+    """the oracles of one alias-expression run -> [(oracle, expected, actual)]"""
+    bad = []
+    logs = not shape.get('none') and cfg_logs(shape)
+    if out[0] == 'escape':
+        return [('expression-escape', 'value or BareScriptRuntimeError', list(out))]
+    if not logs and log:
+        bad.append(('no-log-without-debug', [], log))
+    if out[0] == 'rt' and not out[1].startswith('Undefined function'):
+        bad.append(('unexpected-runtime-error', 'Undefined function only', out[1]))
+    if ref is not None and not src.startswith(ALIAS_NONDET):
+        a = [out[0], deep(out[1], lib) if out[0] == 'ok' else out[1]]
+        b = [ref[0], deep(ref[1], lib) if ref[0] == 'ok' else ref[1]]
+        if a != b:
+            bad.append(('options-change-result', b, a))
+    return bad
+
+
 def stream_text(ctx, mods, n, name='exec-adversarial-text'):
     st = ctx.stream(name, f'scripts = fixed prelude (400/4000/4817-digit ints via numberParseInt, inf, nan, -0.0, datetimes at the edge, '
                           f'cyclic array/object, 1200-deep array, raising / failing / unboundedly recursive script functions) + 2..8 of '
                           f'{len(ADV_LINES)} adversarial statements (+ sometimes one of {len(RT_LINES)} statements that must end in a documented '
-                          "exception) + systemLog('END'), run by execute_script with debug on and off; oracles: only documented "
+                          "exception) + systemLog('END'), run by execute_script with debug on and off and under one (thorough: four) of the other host "
+                          'configurations (debug True/False/absent x logFn supplied/absent x fetchFn files/absent/raising, sometimes '
+                          "without 'globals'); alias expressions under 10 shapes of the options argument (None, with/without globals, "
+                          "debug, logFn); oracles: only documented "
                           "exceptions escape, END is reached unless a documented exception is raised, debug only adds 'failed with error' "
                           'lines (each naming a function), result and globals identical in both modes; non-trivial = at least one '
                           'swallowed failure')
     rng = ctx.rng(name)
     lines_all = list(ADV_LINES)
+    off = rng.randrange(len(EXTRA_CONFIGS))
     for ix in range(n):
         if ix < len(lines_all):
             body = [lines_all[ix]]                                   # every template at least once, alone
@@ -1007,26 +1220,79 @@ def stream_text(ctx, mods, n, name='exec-adversarial-text'):
         ends_rt = ix >= len(lines_all) and rng.random() < 0.15
         if ends_rt:
             body.insert(rng.randint(0, len(body)), rng.choice(RT_LINES))
+        # a template may be drawn twice: its jump label must stay unique (a second definition would make the jump go backwards)
+        body = [re.sub(r'\bskip([A-Z])\b', f'skip\\g<1>{j}', ln) for j, ln in enumerate(body)]
         text = PRELUDE + 'r0 = five\n' + '\n'.join(body) + "\nsystemLog('END')\nreturn 'done'\n"
-        text_case(ctx, mods, st, name, text, ends_rt, ['single-template' if len(body) == 1 else 'combined'])
-    # expression aliases through evaluate_expression, builtins on / off
+        text_case(ctx, mods, st, name, text, ends_rt, ['single-template' if len(body) == 1 else 'combined'],
+                  extra_configs(ctx, ix + off, rng, fetch=True))
+    # expression aliases through evaluate_expression, builtins on / off, under EVERY shape of the options argument
+    lib = mods['library'].SCRIPT_FUNCTIONS
     for src in ALIAS_EXPRS:
+        expr = mods['parser'].parse_expression(src)
         for builtins in (True, False):
-            for debug in (True, False):
-                log = []
-                expr = mods['parser'].parse_expression(src)
-                out = guarded(mods, lambda: mods['runtime'].evaluate_expression(expr, {'globals': {}, 'logFn': log.append, 'debug': debug}, None, builtins))  # pylint: disable=cell-var-from-loop
-                case = {'kind': 'aliasexpr', 'text': src, 'builtins': builtins, 'debug': debug}
-                st.case([src, builtins, debug], nontrivial=bool(fail_lines(log)), tags=['alias-' + out[0]])
-                if out[0] == 'escape':
-                    ctx.witness('expression-escape', case, 'value or BareScriptRuntimeError', list(out))
-                if not debug and log:
-                    ctx.witness('no-log-without-debug', case, [], log)
-                if out[0] == 'rt' and not out[1].startswith('Undefined function'):
-                    ctx.witness('unexpected-runtime-error', case, 'Undefined function only', out[1])
+            ref = None
+            for shape in OPTION_SHAPES:
+                out, log = eval_shape(mods, expr, shape, builtins)
+                case = {'kind': 'aliasexpr', 'text': src, 'builtins': builtins, 'debug': shape.get('debug') is True, 'shape': shape}
+                st.case([src, builtins, shape_tag(shape)], nontrivial=bool(fail_lines(log)) or shape != OPTION_SHAPES[0],
+                        tags=['alias-' + out[0], shape_tag(shape)])
+                for oracle, want, got in alias_failures(out, log, shape, ref, lib, src):
+                    ctx.witness(oracle, case, want, got)
+                if ref is None:
+                    ref = out
 
 
-def text_case(ctx, mods, st, name, text, ends_rt, tags):
+def visible(log, keep_failures=True):
+    """the log without the debug-only lines of the runtime itself (include lint, systemFetch resource lines); the
+    'failed with error' lines are kept or dropped"""
+    return [ln for ln in log if (keep_failures and FAIL_RE.match(ln)) or not ln.startswith('BareScript: ')]
+
+
+def user_globals(g, lib, skip=()):
+    return {k: deep(v, lib) for k, v in g.items() if not (k in lib and v is lib[k]) and k not in skip}
+
+
+def config_failures(mods, text, cfg, ends_rt, files, ref=None):
+    """run `text` under host configuration cfg and under the reference configurations (logFn supplied, debug on / off)
+    -> [(oracle, expected, actual)]: no host exception; the outcome and the globals do not depend on the configuration
+    (a documented exception stays a documented exception when only the fetchFn changed); what reaches a supplied logFn
+    is what reaches it in the reference configuration with the same debug mode - in particular one 'failed with error'
+    line per swallowed failure iff debug mode"""
+    lib = mods['library'].SCRIPT_FUNCTIONS
+    none = bool(cfg.get('none'))
+    if none:
+        cfg = {'none': True, 'debug': ABSENT, 'logFn': False, 'fetchFn': 'absent'}
+    ref_out, ref_log, ref_g = ref if ref is not None else run_script(mods, text, None, cfg_debug(cfg), 20000, files)
+    if ref_out[0] == 'escape':
+        return []                                       # reported by the reference run itself
+    if (none or cfg.get('noMax')) and ref_out[0] == 'rt' and ref_out[1].startswith('Exceeded maximum script statements'):
+        return []                                       # never run a script that needs the statement limit without one
+    out, log, g = run_script(mods, text, None, None, 20000, files, cfg=cfg)
+    if out[0] == 'escape':
+        return [('script-escape', 'result or BareScriptRuntimeError/BareScriptParserError', list(out))]
+    bad = []
+    same_fetch = cfg.get('fetchFn', 'files') == 'files'
+    if not same_fetch and (ends_rt or 'include' in text):
+        # without its fetchFn an include ends the run with the documented runtime error instead
+        if out[0] in ('rt', 'parser'):
+            return bad
+        if ends_rt:
+            return [('documented-exception-expected', 'rt or parser', list(out[:1]))]
+    if no_addr([out[0], str(out[1])]) != no_addr([ref_out[0], str(ref_out[1])]):
+        bad.append(('config-changes-result', [ref_out[0], str(ref_out[1])[:200]], [out[0], str(out[1])[:200]]))
+    if none:
+        return bad
+    skip = () if same_fetch else ('rf',)
+    if user_globals(g, lib, skip) != user_globals(ref_g, lib, skip):
+        bad.append(('config-changes-globals', 'the globals of the reference configuration', 'differ'))
+    if cfg['logFn'] and visible(log) != visible(ref_log):
+        bad.append(('config-changes-log', visible(ref_log)[-6:], visible(log)[-6:]))
+    if not cfg['logFn'] and log:
+        bad.append(('config-changes-log', [], log[-6:]))
+    return bad
+
+
+def text_case(ctx, mods, st, name, text, ends_rt, tags, extra=()):
     res = {}
     for debug in (True, False):
         res[debug] = run_script(mods, text, None, debug, 20000, FILES)
@@ -1034,11 +1300,15 @@ def text_case(ctx, mods, st, name, text, ends_rt, tags):
     case = {'kind': 'text', 'text': text}
     lib = mods['library'].SCRIPT_FUNCTIONS
     fl = fail_lines(log_d)
-    st.case(text, nontrivial=bool(fl), tags=tags + [out_d[0]] + (['swallowed'] if fl else []))
+    st.case(text, nontrivial=bool(fl), tags=tags + [out_d[0]] + (['swallowed'] if fl else []) + [cfg_tag(c) for c in extra])
     for debug, out in ((True, out_d), (False, out_n)):
         if out[0] == 'escape':
             ctx.witness('script-escape', dict(case, debug=debug), 'result or BareScriptRuntimeError/BareScriptParserError', list(out))
             return
+    # the other host configurations (debug True/False/absent x logFn supplied/absent x fetchFn files/absent/raising)
+    for cfg in extra:
+        for oracle, want, got in config_failures(mods, text, cfg, ends_rt, FILES, ref=res[cfg_debug(cfg)]):
+            ctx.witness(oracle, {'kind': 'text-config', 'text': text, 'config': cfg, 'ends_rt': ends_rt}, want, got)
     if not ends_rt:
         if out_d != ('ok', 'done') or not log_d or log_d[-1] != 'END':
             ctx.witness('execution-continues', dict(case, debug=True), ['ok', 'done', 'END'], [list(out_d[:1]) + [str(out_d[1])[:200]], log_d[-3:]])
@@ -1065,13 +1335,20 @@ def text_case(ctx, mods, st, name, text, ends_rt, tags):
 
 def run_corpus(ctx, mods):
     st = ctx.stream('corpus', 'harness/corpus/C05.jsonl: the witnesses of F4, F17, F18, F21, F25 (N1-N4) and hand-picked cases, debug '
-                              'on and off; every line states the expected outcome; non-trivial = all')
+                              'on and off with a logFn (every line states the expected outcome) and under the other four host '
+                              'configurations (debug True/False/absent x logFn supplied/absent: same outcome, globals and log as '
+                              'the reference configuration); non-trivial = all')
     if not os.path.exists(CORPUS):
         ctx.broken.append('corpus file missing')
         return
     with open(CORPUS, encoding='utf-8') as fh:
         entries = [json.loads(ln) for ln in fh if ln.strip()]
     for ent in entries:
+        for cfg in CORPUS_CONFIGS:                     # every host configuration: same outcome, failure lines iff debug and logFn
+            st.case([ent['text'], cfg_tag(cfg)], nontrivial=True, tags=[ent.get('finding', 'misc'), cfg_tag(cfg)])
+            for oracle, want, got in config_failures(mods, ent['text'], cfg, False, ent.get('files')):
+                ctx.witness(oracle, {'kind': 'corpus-config', 'text': ent['text'], 'files': ent.get('files'), 'config': cfg,
+                                     'note': ent.get('note')}, want, got)
         for debug in (True, False):
             out, log, _ = run_script(mods, ent['text'], None, debug, 20000, ent.get('files'))
             case = {'kind': 'corpus', 'text': ent['text'], 'files': ent.get('files'), 'debug': debug, 'note': ent.get('note')}
@@ -1130,15 +1407,23 @@ def replay(witness):
         return out[0] != 'ok' or (raw[0] != 'v' and out[1] is not None)
     if kind == 'call':
         lib = mods['library'].SCRIPT_FUNCTIONS
-        out, _ = callee_outcome(mods, lib[inp['name']], inp['args'], inp['debug'])
-        got, log = wrapped_call(mods, inp['name'], inp['args'], inp['debug'])
+        cfg = call_cfg(inp['debug'], inp.get('config'))
+        alias = inp.get('alias')
+        out, _ = callee_outcome(mods, lib[inp['name']], inp['args'], inp['debug'], cfg)
+        got, log = wrapped_call(mods, inp['name'], inp['args'], inp['debug'], via_alias=alias, cfg=cfg)
         if got[0] == 'escape':
             return True
         if out[0] in ('args', 'host'):
             want = out[2] if out[0] == 'args' else None
-            nfail = [ln for ln in log if (m := FAIL_RE.match(ln)) and m.group(1) == inp['name']]
-            return got[0] != 'ok' or deep(got[1], lib) != deep(want, lib) or len(nfail) != (1 if inp['debug'] else 0) or log[-1:] != ['after']
+            nfail = [ln for ln in log if (m := FAIL_RE.match(ln)) and m.group(1) == (alias or inp['name'])]
+            return got[0] != 'ok' or deep(got[1], lib) != deep(want, lib) or len(nfail) != (1 if cfg_logs(cfg) else 0) or \
+                (alias is None and cfg['logFn'] and log[-1:] != ['after'])
         return False
+    if kind == 'script' and 'config' in inp:
+        model = mods['parser'].parse_script(inp['text'])
+        ref = progen.run_impl(model, inp.get('globals'), max_statements=400, debug=bool(inp['debug']))
+        ref['log'] = canon_log(ref.get('log', []))
+        return bool(exec_config_failures(mods, model, inp.get('globals'), inp['config'], ref))
     if kind in ('script', 'text', 'corpus'):
         modes = [inp['debug']] if inp.get('debug') is not None else [True, False]
         res = {d: run_script(mods, inp['text'], copy.deepcopy(inp.get('globals')), d, 400 if kind == 'script' else 20000,
@@ -1164,6 +1449,17 @@ def replay(witness):
             return [x for x in ld if not x.startswith('BareScript: ')] != [x for x in ln_ if not x.startswith('BareScript: ')] \
                 or bool(fail_lines(ln_)) or (od[0], str(od[1])) != (on[0], str(on[1]))
         return False
+    if kind in ('text-config', 'corpus-config'):
+        return bool(config_failures(mods, inp['text'], inp['config'], inp.get('ends_rt', False), inp.get('files', FILES)))
+    if kind == 'aliasexpr' and 'shape' in inp:
+        lib = mods['library'].SCRIPT_FUNCTIONS
+        expr = mods['parser'].parse_expression(inp['text'])
+        ref, _ = eval_shape(mods, expr, OPTION_SHAPES[0], inp['builtins'])
+        out, log = eval_shape(mods, expr, inp['shape'], inp['builtins'])
+        return bool(alias_failures(out, log, inp['shape'], ref, lib, inp['text']))
+    if kind == 'expr' and 'config' in inp:
+        return bool(expr_config_failures(mods, mods['parser'].parse_expression(inp['text']), inp['globals'], inp['config'],
+                                         inp['builtins']))
     if kind in ('expr', 'aliasexpr'):
         expr = mods['parser'].parse_expression(inp['text'])
         g = copy.deepcopy(inp.get('globals') or {})
